@@ -198,6 +198,8 @@ func VC09_Rotation() {
 	<-done
 	<-done
 	rt.Assert(totalSent(bs)+errs == 3, "every dispatch either reaches one backend or reports an error; nothing is sent twice")
+	// the set {0,1} -> {1} -> {1,2} -> {2} is never empty: no dispatch may be lost
+	rt.Assert(errs == 0, "the backend set is never empty: every dispatch reaches a backend")
 	rt.Assert(len(rr.backends) == 1 && len(rr.backendMap) == 1, "list and map in step after the changes")
 	rt.Reach("end")
 }
